@@ -2,6 +2,7 @@ mod gen;
 mod ops;
 mod ops_access;
 mod ops_edit;
+mod ops_order;
 mod props;
 mod rng;
 mod wire;
